@@ -423,8 +423,10 @@ class Backend(abc.ABC):
                 qb_op_real.terms[term], qb_op_imag.terms[term] = coef.real, coef.imag
             qb_op_real.compress()
             qb_op_imag.compress()
-            var_real = self.get_variance(qb_op_real, state_prep_circuit, initial_statevector=initial_statevector)
-            var_imag = self.get_variance(qb_op_imag, state_prep_circuit, initial_statevector=initial_statevector)
+            var_real = self.get_variance(qb_op_real, state_prep_circuit, initial_statevector=initial_statevector,
+                                         desired_meas_result=desired_meas_result)
+            var_imag = self.get_variance(qb_op_imag, state_prep_circuit, initial_statevector=initial_statevector,
+                                         desired_meas_result=desired_meas_result)
             # https://en.wikipedia.org/wiki/Complex_random_variable#Variance_and_pseudo-variance
             return var_real if (var_imag == 0.) else var_real + var_imag  # always non-negative real number
 
@@ -595,7 +597,8 @@ class Backend(abc.ABC):
 
             basis_circuit = Circuit(measurement_basis_gates(term))
             full_circuit = initial_circuit + basis_circuit if (basis_circuit.size > 0) else initial_circuit
-            frequencies, _ = self.simulate(full_circuit, initial_statevector=updated_statevector)
+            frequencies, _ = self.simulate(full_circuit, initial_statevector=updated_statevector,
+                                           desired_meas_result=desired_meas_result)
             variance_term = self.get_variance_from_frequencies_oneterm(term, frequencies)
             # Assumes no correlation between terms
             # https://en.wikipedia.org/wiki/Propagation_of_uncertainty#Example_formulae
